@@ -52,7 +52,7 @@ func VerifHarness_C20_step() {
 	}
 	stash0 := len(rs0.messageStash)
 
-	ev := verifConc(ndInt("event", 0, 4))
+	ev := verifConc(ndInt("event", 0, 8))
 	var reqID []byte
 	viaIncoming := false
 	switch ev {
@@ -82,6 +82,28 @@ func VerifHarness_C20_step() {
 				verifAssume(T+5+stash0 > k)
 			}
 		}
+		r.s.fixMsgIn(r.s, m)
+	case 5:
+		verifCase("inbound-duplicate")
+		// a proper retransmission of something already consumed: ignored, but it is inbound traffic all the same
+		verifAssume(T >= 2)
+		m := r.appMessage(T - 1)
+		verifPossDup(m)
+		r.s.fixMsgIn(r.s, m)
+	case 6:
+		verifCase("inbound-gapfill-in-sequence")
+		m := r.inbound("4", T)
+		m.Body.SetInt(tagNewSeqNo, T+2)
+		m.Body.SetBool(tagGapFillFlag, true)
+		r.s.fixMsgIn(r.s, m)
+	case 7:
+		verifCase("inbound-application-message-in-sequence")
+		r.s.fixMsgIn(r.s, r.appMessage(T))
+	case 8:
+		verifCase("inbound-resendrequest")
+		m := r.inbound("2", T)
+		m.Body.SetInt(tagBeginSeqNo, 1)
+		m.Body.SetInt(tagEndSeqNo, 0)
 		r.s.fixMsgIn(r.s, m)
 	}
 	r.pump()
@@ -147,6 +169,15 @@ func VerifHarness_C20_step() {
 			verifAssert(ok && len(rs1.messageStash) == stash0+1, "recovery-not-disturbed-stash-kept")
 		} else {
 			verifAssert(nRR == 1, "gap-requests-resend")
+		}
+	}
+	if ev >= 5 {
+		verifAssert(kind1 != stPendingInSession && kind1 != stPendingResend, "inbound-message-cancels-pending-disconnect")
+		if ev == 5 {
+			verifAssert(r.st.NextTargetMsgSeqNum() == T && len(ws) == 0, "duplicate-ignored")
+			if recovering {
+				verifAssert(kind1 == stResend, "recovery-not-disturbed-by-duplicate")
+			}
 		}
 	}
 	if ev == 3 || ev == 4 || ev == 0 {
